@@ -295,6 +295,13 @@ Proof. exact (conj eq_refl (conj eq_refl (conj eq_refl (conj eq_refl eq_refl))))
 Print Assumptions jail_record_shape_as_modelled.
 
 
+(** 15. "In bounded time": above height 50 the next liveness-check height is less than 10 blocks away. *)
+Theorem check_height_within_period : forall h : Z, Gen.C12.check_after < h ->
+  exists k, 0 <= k < Gen.C12.check_period /\ is_check_height (h + k) = true.
+Proof. exact check_height_within_period_proof. Qed.
+Print Assumptions check_height_within_period.
+
+
 (* --- source translation tie (GenFn) --- *)
 (* The Go function bodies named below are re-translated from the source on every check
    (harness/cmd/extract/gotrans*.go -> GenFn/*.v, semantics of the Go subset: Trans/GoSem.v).
